@@ -56,6 +56,7 @@ package eth2wrap
 //@ ensures r1 ==> has(c.proposerDuties.duties, epoch) && has(c.proposerDuties.metadata, epoch) && has(c.proposerDuties.requestedIdxs, epoch)
 //@ ensures r1 ==> r0.duties == c.proposerDuties.duties[epoch] && r0.requestedIdxs == c.proposerDuties.requestedIdxs[epoch] && r0.metadata == c.proposerDuties.metadata[epoch]
 //@ ensures !r1 ==> !has(c.proposerDuties.duties, epoch) || !has(c.proposerDuties.metadata, epoch) || !has(c.proposerDuties.requestedIdxs, epoch)
+//@ ensures !r1 ==> len(r0.duties) == 0
 
 //@ func (c *DutiesCache) storeOrAmendProposerDuties
 //@ props C20
@@ -101,12 +102,12 @@ package eth2wrap
 //@ loop 3 invariant forallk(k, c.proposerDuties.requestedIdxs, has(old(c.proposerDuties.requestedIdxs), k) && c.proposerDuties.requestedIdxs[k] == old(c.proposerDuties.requestedIdxs)[k]) && forall(t, 0, $i, $ks[t] > epoch ==> !has(c.proposerDuties.requestedIdxs, $ks[t])) && forallk(k, old(c.proposerDuties.requestedIdxs), k <= epoch ==> has(c.proposerDuties.requestedIdxs, k)) && $m == old(c.proposerDuties.requestedIdxs)
 //@ loop 3 invariant c.proposerDuties.duties == atentry(c.proposerDuties.duties) && c.proposerDuties.metadata == atentry(c.proposerDuties.metadata)
 
-
 //@ func (c *DutiesCache) fetchAttesterDuties
 //@ props C20
 //@ ensures r1 ==> has(c.attesterDuties.duties, epoch) && has(c.attesterDuties.metadata, epoch) && has(c.attesterDuties.requestedIdxs, epoch)
 //@ ensures r1 ==> r0.duties == c.attesterDuties.duties[epoch] && r0.requestedIdxs == c.attesterDuties.requestedIdxs[epoch] && r0.metadata == c.attesterDuties.metadata[epoch]
 //@ ensures !r1 ==> !has(c.attesterDuties.duties, epoch) || !has(c.attesterDuties.metadata, epoch) || !has(c.attesterDuties.requestedIdxs, epoch)
+//@ ensures !r1 ==> len(r0.duties) == 0
 
 //@ func (c *DutiesCache) storeOrAmendAttesterDuties
 //@ props C20
@@ -152,12 +153,12 @@ package eth2wrap
 //@ loop 3 invariant forallk(k, c.attesterDuties.requestedIdxs, has(old(c.attesterDuties.requestedIdxs), k) && c.attesterDuties.requestedIdxs[k] == old(c.attesterDuties.requestedIdxs)[k]) && forall(t, 0, $i, $ks[t] > epoch ==> !has(c.attesterDuties.requestedIdxs, $ks[t])) && forallk(k, old(c.attesterDuties.requestedIdxs), k <= epoch ==> has(c.attesterDuties.requestedIdxs, k)) && $m == old(c.attesterDuties.requestedIdxs)
 //@ loop 3 invariant c.attesterDuties.duties == atentry(c.attesterDuties.duties) && c.attesterDuties.metadata == atentry(c.attesterDuties.metadata)
 
-
 //@ func (c *DutiesCache) fetchSyncDuties
 //@ props C20
 //@ ensures r1 ==> has(c.syncDuties.duties, epoch) && has(c.syncDuties.metadata, epoch) && has(c.syncDuties.requestedIdxs, epoch)
 //@ ensures r1 ==> r0.duties == c.syncDuties.duties[epoch] && r0.requestedIdxs == c.syncDuties.requestedIdxs[epoch] && r0.metadata == c.syncDuties.metadata[epoch]
 //@ ensures !r1 ==> !has(c.syncDuties.duties, epoch) || !has(c.syncDuties.metadata, epoch) || !has(c.syncDuties.requestedIdxs, epoch)
+//@ ensures !r1 ==> len(r0.duties) == 0
 
 //@ func (c *DutiesCache) storeOrAmendSyncDuties
 //@ props C20
@@ -203,7 +204,6 @@ package eth2wrap
 //@ loop 3 invariant forallk(k, c.syncDuties.requestedIdxs, has(old(c.syncDuties.requestedIdxs), k) && c.syncDuties.requestedIdxs[k] == old(c.syncDuties.requestedIdxs)[k]) && forall(t, 0, $i, $ks[t] > epoch ==> !has(c.syncDuties.requestedIdxs, $ks[t])) && forallk(k, old(c.syncDuties.requestedIdxs), k <= epoch ==> has(c.syncDuties.requestedIdxs, k)) && $m == old(c.syncDuties.requestedIdxs)
 //@ loop 3 invariant c.syncDuties.duties == atentry(c.syncDuties.duties) && c.syncDuties.metadata == atentry(c.syncDuties.metadata)
 
-
 //@ func (c *DutiesCache) Trim
 //@ props C20
 //@ callreq c.trimBeforeProposerDuties: epoch >= dutiesCacheTrimThreshold && a1 == epoch - dutiesCacheTrimThreshold
@@ -218,3 +218,59 @@ package eth2wrap
 //@ callreq c.trimAfterAttesterDuties: a1 == epoch
 //@ callreq c.trimAfterSyncDuties: a1 == epoch
 //@ ensures ncalls(c.trimAfterProposerDuties) == 1 && ncalls(c.trimAfterAttesterDuties) == 1 && ncalls(c.trimAfterSyncDuties) == 1
+
+// ---- C20: callers receive private copies ------------------------------------------------------------------
+// The duty pointers handed out never point into the cached slices: cached entries are copied per element,
+// freshly fetched ones come straight from the decoded beacon response (declared fresh below, A-BN).
+//@ freshcalls c.eth2Cl.ProposerDuties c.eth2Cl.AttesterDuties c.eth2Cl.SyncCommitteeDuties
+
+// Every cached duty of a requested validator is part of the answer (a validator may have several proposer
+// slots in an epoch: all of them), by value.
+//@ spec func sameProDuty(p *eth2v1.ProposerDuty, d eth2v1.ProposerDuty) bool = p != nil && p.ValidatorIndex == d.ValidatorIndex && p.Slot == d.Slot && p.PubKey == d.PubKey
+//@ func (c *DutiesCache) ProposerDutiesCache
+//@ props C20 C15
+//@ fresh r0.Duties
+//@ after c.fetchProposerDuties: !ok ==> len(dutiesForEpoch.duties) == 0
+//@ after c.storeOrAmendProposerDuties: forall(j, 0, len(dutiesForEpoch.duties), has(requestedSet, dutiesForEpoch.duties[j].ValidatorIndex) ==> exists(k, 0, len(dutiesResult), sameProDuty(dutiesResult[k], dutiesForEpoch.duties[j])))
+//@ ensures r1 == nil ==> forall(j, 0, len(dutiesForEpoch.duties), has(requestedSet, dutiesForEpoch.duties[j].ValidatorIndex) ==> exists(k, 0, len(r0.Duties), sameProDuty(r0.Duties[k], dutiesForEpoch.duties[j])))
+//@ loop 1 invariant true
+//@ loop 2 invariant forall(t, 0, $i, has(requestedSet, requestVidxs[t]))
+//@ loop 3 invariant forall(j, 0, $i, has(requestedSet, dutiesForEpoch.duties[j].ValidatorIndex) ==> exists(k, 0, len(dutiesResult), sameProDuty(dutiesResult[k], dutiesForEpoch.duties[j])))
+//@ loop 4 invariant true
+
+// Every cached duty of a requested validator is part of the answer by value.
+//@ spec func sameAttDuty(p *eth2v1.AttesterDuty, d eth2v1.AttesterDuty) bool = p != nil && p.ValidatorIndex == d.ValidatorIndex && p.Slot == d.Slot && p.PubKey == d.PubKey && p.CommitteeIndex == d.CommitteeIndex && p.CommitteeLength == d.CommitteeLength && p.CommitteesAtSlot == d.CommitteesAtSlot && p.ValidatorCommitteeIndex == d.ValidatorCommitteeIndex
+//@ func (c *DutiesCache) AttesterDutiesCache
+//@ props C20 C15
+//@ fresh r0.Duties
+//@ after c.fetchAttesterDuties: !ok ==> len(dutiesForEpoch.duties) == 0
+//@ after c.storeOrAmendAttesterDuties: forall(j, 0, len(dutiesForEpoch.duties), has(requestedSet, dutiesForEpoch.duties[j].ValidatorIndex) ==> exists(k, 0, len(dutiesResult), sameAttDuty(dutiesResult[k], dutiesForEpoch.duties[j])))
+//@ ensures r1 == nil ==> forall(j, 0, len(dutiesForEpoch.duties), has(requestedSet, dutiesForEpoch.duties[j].ValidatorIndex) ==> exists(k, 0, len(r0.Duties), sameAttDuty(r0.Duties[k], dutiesForEpoch.duties[j])))
+//@ loop 1 invariant true
+//@ loop 2 invariant forall(t, 0, $i, has(requestedSet, requestVidxs[t]))
+//@ loop 3 invariant forall(j, 0, $i, has(requestedSet, dutiesForEpoch.duties[j].ValidatorIndex) ==> exists(k, 0, len(dutiesResult), sameAttDuty(dutiesResult[k], dutiesForEpoch.duties[j])))
+//@ loop 4 invariant true
+
+// Every cached duty of a requested validator is part of the answer by value.
+//@ spec func sameSyncDuty(p *eth2v1.SyncCommitteeDuty, d eth2v1.SyncCommitteeDuty) bool = p != nil && p.ValidatorIndex == d.ValidatorIndex && p.PubKey == d.PubKey && seqeq(p.ValidatorSyncCommitteeIndices, d.ValidatorSyncCommitteeIndices)
+//@ func (c *DutiesCache) SyncCommDutiesCache
+//@ props C20 C15
+//@ fresh r0.Duties
+//@ after c.fetchSyncDuties: !ok ==> len(dutiesForEpoch.duties) == 0
+//@ after c.storeOrAmendSyncDuties: forall(j, 0, len(dutiesForEpoch.duties), has(requestedSet, dutiesForEpoch.duties[j].ValidatorIndex) ==> exists(k, 0, len(dutiesResult), sameSyncDuty(dutiesResult[k], dutiesForEpoch.duties[j])))
+//@ ensures r1 == nil ==> forall(j, 0, len(dutiesForEpoch.duties), has(requestedSet, dutiesForEpoch.duties[j].ValidatorIndex) ==> exists(k, 0, len(r0.Duties), sameSyncDuty(r0.Duties[k], dutiesForEpoch.duties[j])))
+//@ loop 1 invariant true
+//@ loop 2 invariant forall(t, 0, $i, has(requestedSet, requestVidxs[t]))
+//@ loop 3 invariant forall(j, 0, $i, has(requestedSet, dutiesForEpoch.duties[j].ValidatorIndex) ==> exists(k, 0, len(dutiesResult), sameSyncDuty(dutiesResult[k], dutiesForEpoch.duties[j])))
+//@ loop 4 invariant true
+
+//@ func slices.Clone
+//@ assume-contract standard library: a new slice with the same elements
+//@ pure
+//@ ensures len(result) == len(s) && forall(i, 0, len(s), result[i] == s[i])
+
+// a deep copy: same fields, own committee indices slice (F-C20)
+//@ func cloneSyncCommDuty
+//@ props C20
+//@ fresh result
+//@ ensures sameSyncDuty(result, d)
